@@ -263,7 +263,7 @@ def _match_segment(items, seg, nxt=None, toks=None):
         n = int(nth)
         if n >= len(cands): raise LostAnchor("selector segment %r: index %d out of %d" % (seg, n, len(cands)))
         return cands[n]
-    if len(cands) > 1 and nxt is not None and toks is not None and not nxt.startswith(("stmt ", "deepfn ")):
+    if len(cands) > 1 and nxt is not None and toks is not None and not nxt.startswith(("stmt ", "deepfn ", "stmts_after ")):
         # several `impl T` blocks: the one that holds the item named by the next segment (must be unique)
         holding = []
         for c in cands:
@@ -295,7 +295,7 @@ def _match_deep(sf, rng, seg):
             hits.append(sig[a])
     if nth >= len(hits):
         raise LostAnchor("selector segment %r: %d hits" % (seg, len(hits)))
-    if kind == "stmt" and len(hits) != 1 and m.group(2) is None:
+    if kind in ("stmt", "stmts_after") and len(hits) != 1 and m.group(2) is None:
         raise LostAnchor("selector segment %r matches %d statements" % (seg, len(hits)))
     start = hits[nth]
     if kind == "deepfn":
@@ -322,6 +322,21 @@ def _match_deep(sf, rng, seg):
             elif t.text == ";" and d == 0:
                 end = j + 1; break
     if end is None: raise LostAnchor("statement %r has no terminating `;`" % seg)
+    if kind == "stmts_after":
+        # everything that follows the matched statement up to the end of the block that holds it (statements a refactoring adds there come along)
+        d = 0; stop = None
+        for j in range(end, rng[1]):
+            t = toks[j]
+            if t.kind == "punct":
+                if t.text in OPEN: d += 1
+                elif t.text in CLOSE:
+                    d -= 1
+                    if d < 0: stop = j; break
+        if stop is None: stop = rng[1]
+        a = end
+        while a < stop and toks[a].kind in TRIVIA: a += 1
+        hdr = [toks[i].text for i in range(a, stop) if toks[i].kind not in TRIVIA][:8]
+        return Item(toks, a, a, stop, "stmt", None, hdr)
     hdr = [toks[i].text for i in range(start, end) if toks[i].kind not in TRIVIA][:8]
     return Item(toks, start, start, end, "stmt", None, hdr)
 
@@ -337,7 +352,7 @@ def select(selector):
     rng = (0, len(sf.toks))
     segs = parts[1:]
     for si, seg in enumerate(segs):
-        if seg.startswith("stmt ") or seg.startswith("deepfn "):
+        if seg.startswith("stmt ") or seg.startswith("deepfn ") or seg.startswith("stmts_after "):
             it = _match_deep(sf, rng, seg)
         else:
             it = _match_segment(items, seg, segs[si + 1] if si + 1 < len(segs) else None, sf.toks)
